@@ -38,6 +38,9 @@ func newSingleRateLimitState(clock clock.Clock) *singleRateLimitState {
 	}
 }
 
+// ratioPrecision is the number of decimal places kept of an allocated share
+const ratioPrecision = 1e6
+
 func (state *singleRateLimitState) TryToIncrement(
 	windowData WindowData,
 ) CurrentLimitState {
@@ -56,9 +59,13 @@ func (state *singleRateLimitState) TryToIncrement(
 	}
 	state.ensureWindowIsUpdated()
 
-	maxAllowedInWindows := int64(math.Ceil(float64(
-		windowData.AllowedRequestCount+state.spillover) *
-		windowData.QuotaAllocationRatio))
+	// The ratio is a percentage divided by 100 and is rarely exact in binary
+	// (100 * 0.28 = 28.000000000000004): drop that representation error before
+	// rounding up, otherwise an exact share gains one extra request.
+	scaledQuota := float64(windowData.AllowedRequestCount+state.spillover) *
+		windowData.QuotaAllocationRatio
+	maxAllowedInWindows := int64(math.Ceil(
+		math.Round(scaledQuota*ratioPrecision) / ratioPrecision))
 	if state.counter >= maxAllowedInWindows {
 		return CurrentLimitState{state.counter, Block}
 	}
